@@ -494,6 +494,11 @@ def _sorted(x, key=None, reverse=False):
     items = list(s) if not isinstance(s, SymSeq) else [s.get(i) for i in range(s.n)]
     if all(is_conc_num(v) for v in items) and key is None:
         return sorted(items, reverse=reverse)
+    if V.CONCRETE_EVAL is not None and key is None:
+        try:        # concrete mode of the cross-check: closed terms are ordered by their numeric value
+            return [v for _k, v in sorted(((V.CONCRETE_EVAL(v), i), v) for i, v in enumerate(items))][::(-1 if reverse else 1)]
+        except Exception:
+            pass
     if len(items) <= 1:
         return list(items)
     return sorted_model(e, SymSeq(len(items), lambda k: A.table_lookup({(i,): v for i, v in enumerate(items)}, (k,))), key, reverse, n_conc=len(items))
